@@ -127,6 +127,16 @@ CHECKS = {
                      "children; every call judged on its own: documented code, status 0, callback user/call data, persisted globals/config only",
                 note="trusted: table of documented codes per call kind; clock virtual; a dangling (destroyed) handle is the caller's use-after-free and is represented by NULL",
                 technique="explicit-state exploration of API call histories on the real library with per-call reference verdicts"),
+    "C19": dict(level="model_checking", ref="3/C19",
+                text="sequential: 7 initial configurations x all action sequences (length <=3/5 over start, stop, abort, assembly_step, line_step, leave_scope) "
+                     "replayed on fresh VMs against the state machine (state after return, return codes, one instruction per assembly step, line steps end on "
+                     "another line, leave scope reduces depth, abort discards everything, liveness afterwards); concurrent: executor inside execute(start) vs a "
+                     "controller issuing every short action sequence, all interleavings at ~30 guarded hook points with <=2/3 preemptions explored by a "
+                     "token-passing scheduler (iterative context bounding), oracle: at most one executor inside the guard, stop/abort effective within 2 "
+                     "instructions, documented return codes, no deadlock/livelock, VM usable afterwards; plus a free-running ThreadSanitizer pass of the same bodies",
+                note="sequentially consistent interleavings at hook points only; default schedule replayed twice before exploring (determinism); TSan pass is "
+                     "a separate free-running run because the cooperative hand-offs would hide races",
+                technique="stateless preemption-bounded exploration of thread interleavings on the real code (CHESS-style) plus explicit enumeration of action histories; TSan for unsynchronised accesses"),
 }
 
 PENDING_REASON = "check not built yet in this round (planned, see DESIGN.md section 3)"
